@@ -47,6 +47,11 @@ Micro(c, s, f, h) ==
     [] c.op = "close" ->                                                                 \* write_all (no lock) + drop (flush)
          IF ~h.open THEN D(f, h, <<"nohandle">>)
          ELSE D(IF f[h.p].k = "file" THEN [f EXCEPT ![h.p] = FileN(h.buf \o c.c)] ELSE f, NoH, Ok)
+    [] c.op = "create_dir_all" ->                         \* VfsPath::create_dir_all: fs.create_dir per prefix, DirectoryExists ignored
+         LET q == SubSeq(c.p, 1, s + 1) IN
+         IF Kind(f, Par(q)) # "dir" \/ f[q].k = "file" THEN D(f, h, Err)
+         ELSE LET f2 == IF f[q].k = "dir" THEN f ELSE [f EXCEPT ![q] = DirN] IN
+              IF s + 1 = Len(c.p) THEN D(f2, h, Ok) ELSE C(f2, h)
     [] c.op = "remove_file" -> IF f[c.p].k # "file" THEN D(f, h, Err) ELSE D([f EXCEPT ![c.p] = None], h, Ok)
     [] c.op = "remove_dir" ->
          IF f[c.p].k # "dir" \/ Kids(f, c.p) # {} THEN D(f, h, Err) ELSE D([f EXCEPT ![c.p] = None], h, Ok)
@@ -100,5 +105,11 @@ Done == \A t \in Threads : idx[t] > Len(prog[t]) /\ ~hs[t].open
 Linearizable ==
   Done => \E o \in SeqOut(prog, [t \in Threads |-> 1], f0, [t \in Threads |-> NoH], [t \in Threads |-> <<>>]) : o[1] = res /\ o[2] = files
 WellFormed == \A p \in U : files[p].k # "none" => Kind(files, Par(p)) = "dir"
+\* C17: concurrent create_dir_all calls all succeed and leave every requested prefix a directory
+AllCalls == UNION {{prog[t][i] : i \in 1..Len(prog[t])} : t \in Threads}
+CdaTargets == {c.p : c \in {x \in AllCalls : x.op = "create_dir_all"}}
+AllCreateDirAllSucceed ==
+  Done => /\ \A t \in Threads : \A i \in 1..Len(res[t]) : res[t][i] = Ok
+          /\ \A p \in CdaTargets : \A k \in 1..Len(p) : files[SubSeq(p, 1, k)].k = "dir"
 WFInits == \A f \in Inits : \A p \in U : f[p].k # "none" => Kind(f, Par(p)) = "dir"
 =============================================================================
